@@ -29,7 +29,10 @@ namespace igris
         }
 
     public:
-        dlist_node() : next(this), prev(this) {}
+        // constexpr: a dlist_node / dlist_base / dlist with static storage
+        // duration is constant-initialised (a self-linked head before any
+        // dynamic initialiser runs), like DLIST_HEAD_INIT does for the C list
+        constexpr dlist_node() : next(this), prev(this) {}
         dlist_node(const dlist_node &) = delete;
         dlist_node &operator=(const dlist_node &) = delete;
 
